@@ -132,9 +132,16 @@ def gen(stratum, rng, tier):
     if stratum == "knap-trunc":
         # 3-place decimals whose product with the scale 1000 is not an integer in floats
         p = 3
-        style = rng.choice(["cap-exact-fill", "cap-exact-fill", "weights", "mixed"])
+        style = rng.choice(["cap-exact-fill", "cap-exact-fill", "weights", "mixed", "fallback", "fallback"])
         n = rng.randint(2, 8)
-        if style == "cap-exact-fill":
+        if style == "fallback":
+            # weights w with int(w*1000) one too small: the scaled DP accepts a set that is 0.001 per such
+            # item too heavy, the float re-check must notice and the greedy fallback must stay honest
+            w = [rng.choice(_TRUNC_SMALL) if rng.random() < 0.6 else rng.randint(1, 5000) for _ in range(n)]
+            sub = rng.sample(range(n), rng.randint(1, n))
+            cap = sum(int((w[i] / 1000) * 1000) for i in sub)
+            cap = max(cap, 1)
+        elif style == "cap-exact-fill":
             cap = rng.choice(_TRUNC_SMALL)
             k = rng.randint(2, min(4, n))
             fill = _partition(cap, k, rng)
